@@ -69,7 +69,7 @@ pub fn feature(classes: &[&'static str]) -> String {
     if classes.contains(&"raw") {
         return "raw".into();
     }
-    let problem: Vec<&str> = ["group_by_without_aggregate", "star_over_join", "set_operation_names_differ", "having", "join_natural", "join_using", "cte_named_like_table"]
+    let problem: Vec<&str> = ["group_by_without_aggregate", "star_over_join", "set_operation_names_differ", "having", "join_natural", "join_using", "cte_named_like_table", "cte_named_like_table_read_earlier"]
         .into_iter()
         .filter(|c| classes.contains(c))
         .collect();
